@@ -444,9 +444,16 @@ func (g *GoBackNConn) sendPacketsForever() error {
 			default:
 			}
 
-			// Start the pong timer.
-			g.pongTicker.Reset()
-			g.pongTicker.Resume()
+			// Start the pong timer, unless it is already running
+			// because an earlier ping has not been answered yet. If
+			// we restarted it for every ping, then with a pong
+			// timeout longer than the ping interval each new ping
+			// would push the deadline out again and an unresponsive
+			// peer would never be detected.
+			if !g.pongTicker.IsActive() {
+				g.pongTicker.Reset()
+				g.pongTicker.Resume()
+			}
 
 			// Also reset the ping timer.
 			g.pingTicker.Reset()
